@@ -1,8 +1,8 @@
 package rules
 
 import (
-	"go/types"
 	"fmt"
+	"go/types"
 	"strings"
 
 	"golang.org/x/tools/go/ssa"
